@@ -4,8 +4,6 @@ package wsutil
 
 import (
 	"io"
-
-	"github.com/gobwas/ws"
 )
 
 // C07_reader_text: with CheckUTF8, a (possibly fragmented) text message is delivered without
@@ -29,7 +27,18 @@ func C07_reader_text() {
 		}
 		wire = append(wire, vEncode(vFrame{fin: true, op: 0, masked: server, key: key, payload: p[split:]})...)
 	}
-	wire = append(wire, vEncode(vFrame{fin: true, op: 1, masked: server, key: key, payload: []byte{'o', 'k'}})...)
+	// the message that follows on the same connection: valid text, a binary message that would be
+	// invalid as text, or text that is invalid on its own but would complete a sequence left open
+	// by the first message
+	next := vChoose("next", 3)
+	nextOp, nextP := byte(1), []byte{'o', 'k'}
+	switch next {
+	case 1:
+		nextOp, nextP = 2, []byte{0xA9}
+	case 2:
+		nextP = []byte{0xA9}
+	}
+	wire = append(wire, vEncode(vFrame{fin: true, op: nextOp, masked: server, key: key, payload: nextP})...)
 	valid := vUTF8Valid(p)
 	src := vNewSrc(wire, vChoose("mode", 2), "chunk")
 	if vChoose("api", 2) == 0 {
@@ -37,6 +46,27 @@ func C07_reader_text() {
 		rd := &Reader{Source: &src, State: vSide(server), CheckUTF8: true}
 		_, err := rd.NextFrame()
 		vAssert(err == nil, "text.first_ok")
+		if n > 0 && vChoose("abandon", 2) == 1 {
+			// the caller reads one byte of the first message and discards the rest: the next
+			// message is judged on its own
+			one := make([]byte, 1)
+			rd.Read(one)
+			if rd.Discard() != nil {
+				return
+			}
+			h, err := rd.NextFrame()
+			vAssert(vAnd(err == nil, byte(h.OpCode) == nextOp), "text.after_discard_next_ok")
+			if err != nil {
+				return
+			}
+			got, err := vReadAllB(rd, B)
+			if next == 2 {
+				vAssert(err == ErrInvalidUTF8, "text.after_discard_invalid_text_rejected")
+			} else {
+				vAssert(vAnd(err == io.EOF, vEqBytes(got, nextP)), "text.after_discard_next_clean")
+			}
+			return
+		}
 		got, err := vReadAllB(rd, B)
 		if op == 2 {
 			vAssert(vAnd(err == io.EOF, vEqBytes(got, p)), "text.binary_never_checked")
@@ -48,12 +78,22 @@ func C07_reader_text() {
 			}
 		}
 		if err != io.EOF {
-			return
+			// rejected: the application skips the rest and goes on with the next message
+			if rd.Discard() != nil {
+				return
+			}
 		}
 		h, err := rd.NextFrame()
-		vAssert(vAnd(err == nil, h.OpCode == ws.OpText), "text.next_ok")
+		vAssert(vAnd(err == nil, byte(h.OpCode) == nextOp), "text.next_ok")
+		if err != nil {
+			return
+		}
 		got, err = vReadAllB(rd, B)
-		vAssert(vAnd(err == io.EOF, vEqBytes(got, []byte("ok"))), "text.next_clean")
+		if next == 2 {
+			vAssert(err == ErrInvalidUTF8, "text.next_invalid_text_rejected")
+		} else {
+			vAssert(vAnd(err == io.EOF, vEqBytes(got, nextP)), "text.next_clean")
+		}
 		return
 	}
 	ms, err := ReadMessage(&src, vSide(server), nil)
@@ -65,6 +105,10 @@ func C07_reader_text() {
 	if err == nil {
 		vAssert(vEqBytes(ms[len(ms)-1].Payload, p), "text.rm_payload")
 		ms, err = ReadMessage(&src, vSide(server), nil)
-		vAssert(vAnd(err == nil, vEqBytes(ms[len(ms)-1].Payload, []byte("ok"))), "text.rm_next_clean")
+		if next == 2 {
+			vAssert(err != nil, "text.rm_next_invalid_text_rejected")
+		} else {
+			vAssert(vAnd(err == nil, vEqBytes(ms[len(ms)-1].Payload, nextP)), "text.rm_next_clean")
+		}
 	}
 }
